@@ -189,7 +189,7 @@ func c02Native(it ap.Item, out []byte, rep *Report, idx int) {
 }
 
 func runC02(seed int64, n int, tier string, outDir string) (*Report, error) {
-	rep := &Report{Rule: "structured values of all 14 struct kinds (value and pointer form, nesting depth <= 2, each field set with probability 1/3) with every string-typed property (ids, IRIs, types, media types, language tags, units, key material, natural-language text) drawn half of the time from a hostile pool (quotes, backslashes, control bytes, invalid UTF-8, JSON fragments, injection attempts); each output is compared byte for byte with the model encoder inside Coq, and natively checked with encoding/json: validity, duplicate members at every depth, every member a declared term, JSON kind per Go type, exact string decoding; non-trivial = value has at least 3 members and one hostile string; distinct by canonical term"}
+	rep := &Report{Rule: "(plus a directed block: language maps with repeated / colliding tags in five positions, and hostile documents with a repeated language tag decoded and re-serialised) structured values of all 14 struct kinds (value and pointer form, nesting depth <= 2, each field set with probability 1/3) with every string-typed property (ids, IRIs, types, media types, language tags, units, key material, natural-language text) drawn half of the time from a hostile pool (quotes, backslashes, control bytes, invalid UTF-8, JSON fragments, injection attempts); each output is compared byte for byte with the model encoder inside Coq, and natively checked with encoding/json: validity, duplicate members at every depth, every member a declared term, JSON kind per Go type, exact string decoding; non-trivial = value has at least 3 members and one hostile string; distinct by canonical term"}
 	g := NewGen(seed, "C02")
 	hdr := "From AP.Model Require Import Prelude Vocab Json JsonLeaf JsonTables JsonEnc.\nFrom AP.Gen Require Import JsonW.\n" +
 		"Definition ok (c : item * (N * N)) : bool := let '(i, o) := c in\n" +
@@ -272,6 +272,67 @@ func runC02(seed int64, n int, tier string, outDir string) (*Report, error) {
 				c02Native(it, out, rep, 100000+ti*1000+fi*10+vi)
 			}
 		}
+	}
+	// directed: language maps with a repeated tag (as a hostile document can produce them: the decoder keeps
+	// both members of {"nameMap":{"en":"a","en":"b"}}), tags that differ only in malformed bytes, a malformed
+	// byte against the character U+FFFD, and the neighbouring shapes (same tag once, empty text, distinct tags);
+	// judged like every other value: no object may repeat a member name (defect fixed by 05721dc and its follow-up)
+	dupMaps := []ap.NaturalLanguageValues{
+		{{Ref: "en", Value: ap.Content("a")}, {Ref: "en", Value: ap.Content("b")}},
+		{{Ref: "en", Value: ap.Content("a")}, {Ref: "fr", Value: ap.Content("b")}, {Ref: "en", Value: ap.Content("c")}},
+		{{Ref: "\xff", Value: ap.Content("a")}, {Ref: "\xfe", Value: ap.Content("b")}},
+		{{Ref: "\xff", Value: ap.Content("a")}, {Ref: "\xef\xbf\xbd", Value: ap.Content("b")}},
+		{{Ref: "\xef\xbf\xbd", Value: ap.Content("a")}, {Ref: "\xfe", Value: ap.Content("b")}, {Ref: "\xfe\xff", Value: ap.Content("c")}},
+		{{Ref: "en", Value: ap.Content("")}, {Ref: "en", Value: ap.Content("b")}, {Ref: "en", Value: ap.Content("c")}},
+		{{Ref: ap.NilLangRef, Value: ap.Content("a")}, {Ref: ap.NilLangRef, Value: ap.Content("b")}},
+		{{Ref: "en", Value: ap.Content("a")}, {Ref: "en", Value: ap.Content("")}},
+		{{Ref: "en", Value: ap.Content("a")}, {Ref: "", Value: ap.Content("b")}},
+		{{Ref: "en", Value: ap.Content("a")}, {Ref: "EN", Value: ap.Content("b")}},
+		{{Ref: "a\"b", Value: ap.Content("x")}, {Ref: "a\\\"b", Value: ap.Content("y")}},
+	}
+	base := n
+	for j, m := range dupMaps {
+		vals := []ap.Item{
+			&ap.Object{Type: ap.NoteType, Name: m},
+			&ap.Object{Type: ap.NoteType, Summary: m, Content: dupMaps[(j+1)%len(dupMaps)]},
+			&ap.Actor{Type: ap.PersonType, PreferredUsername: m},
+			&ap.Object{Type: ap.NoteType, Source: ap.Source{MediaType: "text/plain", Content: m}},
+			&ap.Activity{Type: ap.CreateType, Object: &ap.Object{Type: ap.NoteType, Name: m}},
+		}
+		for _, it := range vals {
+			idx := base
+			base++
+			out, err := it.(json.Marshaler).MarshalJSON()
+			if err != nil {
+				rep.Violate(Violation{Op: "MarshalJSON", Input: CoqItem(it), Expected: "no error", Observed: err.Error(), Index: idx})
+			}
+			rep.Evaluations++
+			cw.Add("("+CoqItem(it)+", "+hxSum(out)+")", fmt.Sprintf("directed dup-language-tag map=%d", j))
+			c02Native(it, out, rep, idx)
+			rep.Count("directed:language-map")
+		}
+	}
+	// the same through the decoder: what a hostile document turns into is re-serialised
+	for j, doc := range []string{
+		`{"type":"Note","nameMap":{"en":"a","en":"b"}}`,
+		`{"type":"Note","contentMap":{"en":"a","fr":"b","en":"c"}}`,
+		`{"type":"Note","nameMap":{"en":"a","fr":"b"}}`,
+	} {
+		it, err := ap.UnmarshalJSON([]byte(doc))
+		if err != nil || it == nil {
+			continue
+		}
+		m, ok := it.(json.Marshaler)
+		if !ok {
+			continue
+		}
+		idx := base
+		base++
+		out, _ := m.MarshalJSON()
+		rep.Evaluations++
+		cw.Add("("+CoqItem(it)+", "+hxSum(out)+")", fmt.Sprintf("directed re-serialised document=%d", j))
+		c02Native(it, out, rep, idx)
+		rep.Count("directed:re-serialised")
 	}
 	// the public entry point (jsonld wrapper) must also produce valid JSON
 	for i := 0; i < n/10; i++ {
